@@ -64,7 +64,7 @@ def _kinds_for(spec, off, sz, tier="quick"):
             if c not in conts:
                 conts.append(c)
     conts = conts or [None]
-    layouts = list(LAYOUTS) + [f"readonly:{p}" for p, v in params.items() if S.has_arrays(v)]
+    layouts = list(LAYOUTS) + [f"readonly:{p}" for p, v in params.items() if S.has_arrays(v)] + ["array-hyperparameters"]
     if tier == "thorough":
         layouts += ["negstride"]
         if sum(1 for v in params.values() if S.has_arrays(v)) > 1:
@@ -76,6 +76,11 @@ def prepare(spec, off, sz, layout, container):
     """Build the call: returns (fn, params) with the requested argument kind applied."""
     fn, params = spec.build(off, sz)
     ro = None
+    if layout == "array-hyperparameters":
+        # argument kind: every real-valued hyper-parameter is handed over as a caller-owned array (0-d array for a scalar, 1-d array for
+        # a per-mode list) - including those the spec leaves at their float default, which are then passed explicitly
+        layout = "fresh"
+        params = _array_hyperparameters(fn, params)
     if layout.startswith("readonly:"):
         ro = layout.split(":", 1)[1]
         lay = "fresh"
@@ -91,6 +96,27 @@ def prepare(spec, off, sz, layout, container):
         S.set_readonly(params[ro])
     prepare.roles = roles  # kinds of the factorised-tensor parameters of the call just prepared (used to name paths)
     return fn, params
+
+
+def _array_hyperparameters(fn, params):
+    import inspect
+
+    def conv(v):
+        if isinstance(v, float):
+            return np.array(v)
+        if isinstance(v, (list, tuple)) and v and all(isinstance(x, (int, float)) and not isinstance(x, bool) for x in v) and any(isinstance(x, float) for x in v):
+            return np.array(v, dtype=float)
+        return v
+
+    out = {k: conv(v) for k, v in params.items()}
+    try:
+        if getattr(fn, "__module__", "").startswith("tensorly"):
+            for name, prm in inspect.signature(fn).parameters.items():
+                if name not in out and isinstance(prm.default, float) and prm.kind in (prm.POSITIONAL_OR_KEYWORD, prm.KEYWORD_ONLY):
+                    out[name] = np.array(prm.default)
+    except (TypeError, ValueError):
+        pass
+    return out
 
 
 _ROLE_NAMES = {"cp": ("weights", "factors"), "tucker": ("core", "factors"), "parafac2": ("weights", "factors", "projections")}
